@@ -24,6 +24,7 @@ pub(super) const G_SCALE: u8 = 4; // unary: 3.0 * x
 pub(super) const G_UMUL: u8 = 5; // user-defined multiplication through Array::op (with counters)
 pub(super) const G_UNTRACK: u8 = 6; // unary: clone of x with tracking switched off (an untracked intermediate)
 pub(super) const G_CLONE: u8 = 7; // unary: a plain clone handle of x (C12)
+pub(super) const G_RETRACK: u8 = 8; // unary: clone of x untracked and re-tracked (is_tracked, gradient not kept)
 
 pub(super) struct UserOpLog {
     calls: Rc<Cell<usize>>,
@@ -110,10 +111,15 @@ pub(super) fn g_build(dims: &[usize], nl: usize, tracked: &[bool], nodes: &[(u8,
                 r
             }
             G_UNTRACK => arrs[i].clone().untracked(),
+            G_RETRACK => {
+                let h = arrs[i].clone().untracked();
+                h.start_tracking();
+                h
+            }
             _ => arrs[i].clone(),
         };
         let lv = match op {
-            G_NEG | G_SCALE | G_CLONE => live[i],
+            G_NEG | G_SCALE | G_CLONE | G_RETRACK => live[i],
             G_UNTRACK => false,
             _ => live[i] || live[j],
         };
@@ -256,7 +262,7 @@ pub(super) fn graph_check(dims: &[usize], nl: usize, tracked: &[bool], nodes: &[
             let mut q = 0;
             while q < total {
                 // clone-like nodes share the gradient slot of their source: clear / compare through the source only
-                let shares_slot = q >= nl && (nodes[q - nl].0 == G_CLONE || nodes[q - nl].0 == G_UNTRACK);
+                let shares_slot = q >= nl && (nodes[q - nl].0 == G_CLONE || nodes[q - nl].0 == G_UNTRACK || nodes[q - nl].0 == G_RETRACK);
                 first.push(if shares_slot { None } else { g.arrs[q].replace_gradient() });
                 q += 1;
             }
@@ -264,7 +270,7 @@ pub(super) fn graph_check(dims: &[usize], nl: usize, tracked: &[bool], nodes: &[
             g.arrs[root].backward(Some(ones));
             q = 0;
             while q < total {
-                let shares_slot = q >= nl && (nodes[q - nl].0 == G_CLONE || nodes[q - nl].0 == G_UNTRACK);
+                let shares_slot = q >= nl && (nodes[q - nl].0 == G_CLONE || nodes[q - nl].0 == G_UNTRACK || nodes[q - nl].0 == G_RETRACK);
                 let now = if shares_slot { None } else { grad_of(&g.arrs[q]) };
                 match (&first[q], &now) {
                     (None, None) => {}
@@ -353,7 +359,7 @@ pub(super) fn graph_check(dims: &[usize], nl: usize, tracked: &[bool], nodes: &[
     while m < total {
         let gr = grad_of(&g.arrs[m]);
         let op = nodes[m - nl].0;
-        if op == G_CLONE {
+        if op == G_CLONE || op == G_RETRACK {
             // a clone shares the gradient slot of its source (C12)
             assert!(Rc::ptr_eq(&g.arrs[m].gradient, &g.arrs[nodes[m - nl].1].gradient), "C12 gradient visible through every clone");
         } else if !g.live[m] && m != root && !(mode == 4 && m == mid) {
@@ -420,7 +426,7 @@ pub(super) fn g_reaches(nl: usize, nodes: &[(u8, usize, usize)], live: &[bool], 
             let (op, i, j) = nodes[q - nl];
             if op != G_UNTRACK {
                 if live[i] { dep[i] = true; }
-                let unary = op == G_NEG || op == G_SCALE || op == G_CLONE;
+                let unary = op == G_NEG || op == G_SCALE || op == G_CLONE || op == G_RETRACK;
                 if !unary && live[j] { dep[j] = true; }
             }
         }
